@@ -300,7 +300,7 @@ func (d *Decoder) readUntypedList(tag byte) (interface{}, error) {
 			aryValue = reflect.Append(aryValue, EnsureRawValue(it))
 			holder.change(aryValue)
 		} else {
-			ary[j] = it
+			ary[j], _ = EnsureInterface(it, nil)
 		}
 	}
 
